@@ -351,7 +351,7 @@ func (m *Machine) opMint(t *rapid.T) bool {
 	if q == nil {
 		return false
 	}
-	variant := rapid.SampledFrom([]string{"exact", "exact", "less", "over1", "dup_output", "unknown_keyset", "bad_amount"}).Draw(t, "mint_variant")
+	variant := rapid.SampledFrom([]string{"exact", "exact", "less", "over1", "dup_output", "unknown_keyset", "bad_amount", "overflow_wrap"}).Draw(t, "mint_variant")
 	amounts := world.Split(q.Amount)
 	keyset := w.ActiveID
 	switch variant {
@@ -365,6 +365,11 @@ func (m *Machine) opMint(t *rapid.T) bool {
 		keyset = "00ffffffffffffff"
 	case "bad_amount":
 		amounts = []uint64{3}
+	case "overflow_wrap":
+		// 32 outputs of the largest denomination sum to 2^64: the total wraps to the quote amount
+		for i := 0; i < 32; i++ {
+			amounts = append(amounts, 1<<59)
+		}
 	}
 	outs := w.MakeOutputs(amounts, keyset)
 	if variant == "dup_output" && len(outs) > 0 {
@@ -431,7 +436,15 @@ func (m *Machine) opSwap(t *rapid.T, adversarial bool) bool {
 		}
 		outs = m.honestOutputs(total - fee + 1)
 	case "overflow":
-		outs = w.MakeOutputs([]uint64{1 << 63, 1 << 63, total}, w.ActiveID)
+		// valid denominations whose sum wraps around 2^64 to what the inputs can pay
+		if total <= fee {
+			return false
+		}
+		amts := world.Split(total - fee)
+		for i := 0; i < 32; i++ {
+			amts = append(amts, 1<<59)
+		}
+		outs = w.MakeOutputs(amts, w.ActiveID)
 	case "no_fee":
 		if fee == 0 {
 			return false
@@ -495,8 +508,29 @@ func (m *Machine) opSwap(t *rapid.T, adversarial bool) bool {
 
 func (m *Machine) opMeltQuote(t *rapid.T) bool {
 	w := m.W
-	kind := rapid.SampledFrom([]string{"external", "external", "external_msat", "internal", "mpp"}).Draw(t, "mq_kind")
+	kind := rapid.SampledFrom([]string{"external", "external", "external_msat", "internal", "mpp", "internal_mpp"}).Draw(t, "mq_kind")
 	switch kind {
+	case "internal_mpp":
+		// partial payment of an invoice of this very mint (any quote state): must be refused
+		if !w.Cfg.MPP {
+			return false
+		}
+		q := m.pickMintQuote(t, func(q *world.MMintQuote) bool {
+			for _, mq := range w.M.MeltQuotes {
+				if mq.Hash == q.Hash {
+					return false
+				}
+			}
+			return q.Amount >= 2
+		})
+		if q == nil {
+			return false
+		}
+		part := rapid.Uint64Range(1000, q.Amount*1000-1).Draw(t, "internal_mpp_part")
+		_, err := w.RequestMeltQuote(q.Request, part)
+		m.logf("mpp melt quote for own mint quote %d (payments %d, issuances %d), part %d msat: err=%v", q.Idx, q.Payments(), q.Issuances, part, err)
+		m.Count["adversarial_reached"]++
+		return true
 	case "internal":
 		q := m.pickMintQuote(t, func(q *world.MMintQuote) bool {
 			for _, mq := range w.M.MeltQuotes {
@@ -605,7 +639,7 @@ func (m *Machine) opMelt(t *rapid.T, adversarial bool) bool {
 		m.Count["adversarial_reached"]++
 		return true
 	}
-	plan := rapid.SampledFrom([]string{"success", "success", "pending", "failed", "error_none", "error_inflight", "error_succeeded"}).Draw(t, "ln_plan")
+	plan := rapid.SampledFrom([]string{"success", "success", "pending", "failed", "error_none", "error_inflight", "error_succeeded", "error_succeeded_lookup_error", "error_inflight_lookup_error"}).Draw(t, "ln_plan")
 	switch plan {
 	case "success":
 		w.LN.PayScript = []lnmodel.PayAnswer{lnmodel.PaySuccess}
@@ -619,9 +653,16 @@ func (m *Machine) opMelt(t *rapid.T, adversarial bool) bool {
 		w.LN.PayScript, w.LN.ErrTruth = []lnmodel.PayAnswer{lnmodel.PayError}, lnmodel.TruthInflight
 	case "error_succeeded":
 		w.LN.PayScript, w.LN.ErrTruth = []lnmodel.PayAnswer{lnmodel.PayError}, lnmodel.TruthSucceeded
+	case "error_succeeded_lookup_error":
+		// the reply to the pay call is lost although the payment went through, and the status lookup fails too
+		w.LN.PayScript, w.LN.ErrTruth = []lnmodel.PayAnswer{lnmodel.PayError}, lnmodel.TruthSucceeded
+		w.LN.StatusScript = []lnmodel.StatusAnswer{lnmodel.StError}
+	case "error_inflight_lookup_error":
+		w.LN.PayScript, w.LN.ErrTruth = []lnmodel.PayAnswer{lnmodel.PayError}, lnmodel.TruthInflight
+		w.LN.StatusScript = []lnmodel.StatusAnswer{lnmodel.StError}
 	}
 	r, err := w.MeltTokens(q, inputs)
-	w.LN.PayScript = nil
+	w.LN.PayScript, w.LN.StatusScript = nil, nil
 	m.logf("melt quote %d (amount %d, reserve %d, internal=%v, mpp=%v) with %d inputs (%d sat), ln=%s: state=%s err=%v",
 		q.Idx, q.Amount, q.FeeReserve, q.InternalTo >= 0, q.IsMpp, len(inputs), sumOf(ins), plan, r.State, err)
 	if err != nil {
